@@ -34,7 +34,7 @@ func propC10() Property {
 // embedded tagSort/FieldMap selectors dropped, so views of one FieldMap compare equal.
 func fmBase(o *Org) string {
 	for o != nil && o.Kind == "field" {
-		n := o.Field.Name()
+		n := cn(o.Field)
 		if n == "tagLookup" || n == "tags" || n == "tagSort" || n == "FieldMap" {
 			o = o.Base
 			continue
@@ -430,7 +430,7 @@ func excludedTags(p *Prog, in ssa.Instruction) []int64 {
 		if a.Rel != "!=" {
 			continue
 		}
-		if a.L.Kind == "field" && a.L.Field.Name() == "tag" {
+		if a.L.Kind == "field" && cn(a.L.Field) == "tag" {
 			if n, ok := a.R.ConstIntVal(); ok {
 				// must hold in every conjunct
 				if d.Implies(func(b *Atom) bool { return b.String() == a.String() }) {
